@@ -40,7 +40,7 @@ MSG_RE = re.compile(r"^Block (.+?):(\S+) at line (\d+) is modified, but (.+):(.*
 
 
 def plan(tier, seed):
-    n = 70 if tier == "quick" else 2500
+    n = 400 if tier == "quick" else 6000
     return [{"i": i, "seed": seed, "n": 6} for i in range(n)]
 
 
